@@ -15,6 +15,6 @@ Defs(c) == Cases[c].ast.defs
 Variants(c) == Cases[c].ast.variants
 Obs(c) == Cases[c].obs
 
-Range(s) == { s[i] : i \in 1..Len(s) }
+RangeS(s) == { s[i] : i \in 1..Len(s) }
 KnownShells == {"bash", "fish", "zsh", "pwsh"}
 =======================================================================
